@@ -1,7 +1,7 @@
 (** C09 Tag grammar: name and attributes round-trip; quoted values are opaque. *)
 From Coq Require Import List NArith Arith Bool.
 Import ListNotations.
-From Chiri Require Import Base.Bytes Base.Res Model.Tokenizer Model.TagParser Spec.TagGrammar Proofs.TagProofs.
+From Chiri Require Import Base.Bytes Base.Res Model.Tokenizer Model.TagParser Spec.TagGrammar Proofs.TagProofs Proofs.StripCopies.
 
 (** A well-formed tag (Spec/TagGrammar.v: a name, then attributes each preceded by a non-empty
     separator of spaces / line breaks, bare or name=value with optional spaces around '=' and the
@@ -31,6 +31,21 @@ Theorem C09_delimiters_stripped :
 Proof. exact parse_value_printed. Qed.
 Print Assumptions C09_delimiters_stripped.
 
+(** Every further copy of a delimiter at the ends of the tag text is stripped as well (the code trims with
+    trim_start_matches / trim_end_matches): a tag written with a doubled delimiter - <<marker name='x'>, [[marker]] -
+    parses exactly like the tag with one copy. *)
+Theorem C09_doubled_start_delimiter :
+  forall ds de v, ds <> [] -> parse_value ds de (ds ++ v) = parse_value ds de v.
+Proof. exact doubled_start_delimiter. Qed.
+Print Assumptions C09_doubled_start_delimiter.
+
+Theorem C09_doubled_end_delimiter :
+  forall ds de v, ds <> [] -> de <> [] ->
+    prefix ds (trim_start ds v ++ de) = false ->
+    parse_value ds de (v ++ de) = parse_value ds de v.
+Proof. exact doubled_end_delimiter. Qed.
+Print Assumptions C09_doubled_end_delimiter.
+
 (** The tag parser never panics on well-formed UTF-8 (a blank body parses to "not an element"). *)
 Theorem C09_tag_parser_never_panics :
   forall ds de value, wf_utf8 value = true -> wf_utf8 ds = true -> wf_utf8 de = true ->
@@ -50,3 +65,9 @@ Example C09_example :
   parse_target (print_body ex_tag) = Ok (Some (mkElement [116;108]%N (attrs_of ex_tag))) /\
   parse_target [SP] = Ok None.
 Proof. vm_compute. repeat split; reflexivity. Qed.
+
+(** <<b> and [[b]] read as the tag b *)
+Example C09_doubled_example :
+  parse_value [60%N] [62%N] [60;60;98;62]%N = Ok (Some (mkElement [98%N] [])) /\
+  parse_value [91%N] [93%N] [91;91;98;93;93]%N = Ok (Some (mkElement [98%N] [])).
+Proof. vm_compute. split; reflexivity. Qed.
